@@ -463,3 +463,17 @@ func (p *H2Peer) Response(streamID uint32) H2Response {
 func HandshakeVia(raw *Conn, w net.Conn, o ClientOpts) (*TLSClient, error) {
 	return handshakeVia(raw, w, o)
 }
+
+// StartServerSide makes the peer play the server role: it consumes the client connection preface and
+// then logs frames like Start does. The caller writes the server's SETTINGS frame itself.
+func (p *H2Peer) StartServerSide() error {
+	buf := make([]byte, len(xhttp2.ClientPreface))
+	if _, err := io.ReadFull(p.C, buf); err != nil {
+		return err
+	}
+	if string(buf) != xhttp2.ClientPreface {
+		return errors.New("bad client preface")
+	}
+	go p.readLoop()
+	return nil
+}
